@@ -101,7 +101,59 @@ package synctree
 //@ func (*github.com/anyproto/any-sync/commonspace/sync/objectsync/objectmessages.Request).ObjectId
 //@   pure
 //@ package github.com/anyproto/any-sync/commonspace/object/tree/synctree
+// C09: the short answer. A full-sync request is answered with the empty response (no changes) only
+// when the requester's heads equal ours or contain every one of ours - the test is made on the same
+// request heads the response producer was built from and on all of the tree's current heads.
+//@ ghost rpHeads Slice stable
+//@ ghost rpPath Slice stable
+//@ ghost rpTree Iface stable
+//@ ghost csSeq Slice stable
+//@ ghost csSub Slice stable
+//@ ghost csRes Bool stable
+//@ ghost emptyResponded Bool stable
+//@ uf containsAllOf(Slice, Slice) Bool
+//@ package github.com/anyproto/any-sync/util/slice
+//@ func ContainsSorted
+//@   modifies object arg0 kinds string
+//@   modifies object arg1 kinds string
+//@   posits [named] result == containsAllOf(arg0, arg1)
+//@   sets csSeq = arg0
+//@   sets csSub = arg1
+//@   sets csRes = result
+//@ package github.com/anyproto/any-sync/commonspace/object/tree/synctree
+//@ func iface synctree.SyncTree.Heads
+//@   pure
+//@ func iface synctree.SyncTree.Lock
+//@   modifies nothing
+//@ func iface synctree.SyncTree.Unlock
+//@   modifies nothing
+//@ func iface synctree.SyncClient.CreateFullSyncRequest
+//@   modifies nothing
+//@ func iface syncdeps.Request.PeerId
+//@   pure
+//@ func (*github.com/anyproto/any-sync/commonspace/object/tree/synctree/response.Response).ProtoMessage
+//@   modifies nothing
+//@ func (*github.com/anyproto/any-sync/commonspace/object/tree/synctree/response.Response).MsgSize
+//@   modifies nothing
+//@ func iface syncdeps.QueueSizeUpdater.UpdateQueueSize
+//@   modifies nothing
+//@ func createResponseProducer
+//@   modifies nothing
+//@   posits [producer_or_error] result1 == nil ==> result0 != nil
+//@   sets rpHeads = theirHeads
+//@   sets rpPath = theirSnapshotPath
+//@   sets rpTree = tree
+//@ func iface response.ResponseProducer.EmptyResponse
+//@   modifies nothing
+//@   posits result1 == nil ==> result0 != nil
+//@   sets emptyResponded = true
+//@ func iface response.ResponseProducer.NewResponse
+//@   modifies nothing
+//@   posits result1 == nil ==> result0 != nil
 //@ func (*syncHandler).HandleStreamRequest
 //@   requires s != nil
 //@   assumes s.tree != nil && s.syncClient != nil
 //@   assumes rq != nil ==> ifaceptr(rq) != nil
+//@   callback send modifies nothing
+//@   ensures [short_answer_only_if_requester_has_all_our_heads] !old(emptyResponded) && emptyResponded ==> sameHeadSet(s.tree.Heads(), rpHeads) || (csRes && csSeq == rpHeads && csSub == s.tree.Heads())
+//@   ensures [producer_built_for_this_tree] !old(emptyResponded) && emptyResponded ==> rpTree == s.tree
